@@ -99,7 +99,8 @@ def _valid(hyps, goal, timeout_ms):
 
 
 def sample_flow(d, cond_idx, container, n=2):
-    """the real sample(n, conditions) on stub marginals and a symbolic RNG: dataflow clauses"""
+    """the real sample(n, conditions) on stub marginals and a symbolic RNG: dataflow clauses.
+    cond_idx is an ordered tuple: the order in which the caller lists the conditions."""
     cols = NAMES[:d]
     ccols = [cols[i] for i in cond_idx]
     df, M = gm.sym_corr(cols)
@@ -240,6 +241,15 @@ def concrete_violation(d, cond_idx, container):
     pos = [i1.index(o) for o in order]
     if not np.allclose(np.asarray(mu_c, dtype=float), mu[pos], atol=1e-8) or not np.allclose(np.asarray(sg_c, dtype=float), sg[np.ix_(pos, pos)], atol=1e-8):
         return True, f'conditional mean/covariance differ from S12 S22^-1 z / Schur complement: {mu_c} vs {mu[pos]}'
+    # end to end with a seed: the free columns are Q_j(Phi(draw)) of N(mu, sg) draws
+    m.set_random_state(11)
+    out = m.sample(3, conditions=copy.deepcopy(conds))
+    draws = np.random.RandomState(11).multivariate_normal(mu[pos], sg[np.ix_(pos, pos)], size=3)
+    for k, c in enumerate(c1):
+        want = m.univariates[cols.index(c)].percent_point(stats.norm.cdf(draws[:, k]))
+        if not np.allclose(out[c].to_numpy(), want, rtol=1e-6, atol=1e-8):
+            return True, (f'sample(conditions={dict(vals)} listed as {ccols}): column {c} does not follow the conditional law '
+                          f'(got {out[c].to_numpy()[:2]}, expected {want[:2]})')
     return False, ''
 
 
@@ -269,8 +279,8 @@ def run(tier, seed):
             for cs in itertools.combinations(range(d), k):
                 tmo = 60000 if tier == 'quick' else 300000
                 jobs.append(('dist', d, cs, tmo))
-    for d in (2, 3):
-        for cs in [(0,), (d - 1,)] + ([(0, 2)] if d == 3 else []):
+    for d in (2, 3, 4):
+        for cs in [(0,), (d - 1,)] + ([(0, 2), (2, 0), (2, 1)] if d == 3 else []) + ([(3, 1), (2, 3, 0)] if d == 4 else []):
             for cont in ('dict', 'Series'):
                 jobs.append(('flow', d, cs, cont))
     for a, res, secs in pool_map(task, jobs):
@@ -296,7 +306,7 @@ def run(tier, seed):
     # conformance witnesses on the real code
     n = 0
     for d in (2, 3, 4):
-        for cs in [(0,), (1,)] + ([(0, 2)] if d >= 3 else []):
+        for cs in [(0,), (1,)] + ([(0, 2), (2, 0)] if d >= 3 else []):
             for cont in ('dict', 'Series'):
                 n += 1
                 bad, detail = concrete_violation(d, list(cs), cont)
